@@ -103,7 +103,12 @@ def from_pickle(filename):
         >>> net2 = pandapipes.from_pickle("example2.p") #relative path
 
     """
-    net = pandapipesNet(get_raw_data_from_pickle(filename))
+    raw_data = get_raw_data_from_pickle(filename)
+    if "nets" in raw_data and "junction" not in raw_data:
+        # a pickled multinet (the member nets are stored as they are)
+        from pandapipes.multinet.multinet import MultiNet
+        return MultiNet(raw_data)
+    net = pandapipesNet(raw_data)
     transform_net_with_df_and_geo(net, ["junction_geodata"], ["pipe_geodata"])
     return net
 
